@@ -323,7 +323,7 @@ func otherVersions(n, except int) []int {
 
 // incr queries a consistency proof, wire round trip, real verification with the right
 // digests, plus alterations whose expected verdict the specification supplies.
-func (r *brun) incr(s, e uint64, fork *brun, rng *rand.Rand) {
+func (r *brun) incr(s, e uint64, fork *brun, forkAt int, rng *rand.Rand) {
 	r.queries++
 	ev := trace.Ev{"a": "incr", "s": s, "e": e}
 	var proof *balloon.IncrementalProof
@@ -383,8 +383,9 @@ func (r *brun) incr(s, e uint64, fork *brun, rng *rand.Rand) {
 		addAlt(trace.Ev{"k": "end_other", "v": ov}, &back, sd, r.snaps[ov].s.HistoryDigest)
 	}
 	if fork != nil && int(e) < len(fork.snaps) {
-		addAlt(trace.Ev{"k": "end_fork"}, &back, sd, fork.snaps[e].s.HistoryDigest)
-		addAlt(trace.Ev{"k": "start_fork"}, &back, fork.snaps[s].s.HistoryDigest, ed)
+		// the fork agrees with this log on versions < forkAt: only later digests differ
+		addAlt(trace.Ev{"k": "end_fork", "at": forkAt}, &back, sd, fork.snaps[e].s.HistoryDigest)
+		addAlt(trace.Ev{"k": "start_fork", "at": forkAt}, &back, fork.snaps[s].s.HistoryDigest, ed)
 	}
 	// single-entry alterations: replace by another entry of the same path / drop
 	keys := make([]string, 0, len(back.AuditPath))
@@ -514,7 +515,7 @@ func runBalloonScenario(tw *trace.Writer, enc *symhash.Encoder, sc *bscenario, r
 }
 
 func (r *brun) incrFork(s, e uint64, f *brun, at int, rng *rand.Rand) {
-	r.incr(s, e, f, rng)
+	r.incr(s, e, f, at, rng)
 }
 
 func (r *brun) queryAll(rng *rand.Rand, exhaustive bool) {
@@ -548,20 +549,20 @@ func (r *brun) queryAll(rng *rand.Rand, exhaustive bool) {
 	if exhaustive {
 		for e := uint64(0); e < n; e++ {
 			for s := uint64(0); s <= e; s++ {
-				r.incr(s, e, nil, rng)
+				r.incr(s, e, nil, 0, rng)
 			}
 		}
 	} else {
 		for t := 0; t < 16; t++ {
 			e := biased(rng, n)
 			s := biased(rng, e+1)
-			r.incr(s, e, nil, rng)
+			r.incr(s, e, nil, 0, rng)
 		}
 	}
 	// out of range / invalid requests must be clean errors
-	r.incr(n, n, nil, rng)
-	r.incr(1, 0, nil, rng)
-	r.incr(0, n, nil, rng)
+	r.incr(n, n, nil, 0, rng)
+	r.incr(1, 0, nil, 0, rng)
+	r.incr(0, n, nil, 0, rng)
 }
 
 // versions around powers of two and the ends of [from, n)
